@@ -181,7 +181,7 @@ impl Property for C15 {
     fn runs(&self, tier: Tier) -> usize {
         match tier {
             Tier::Quick => 1500,
-            Tier::Thorough => 6000,
+            Tier::Thorough => 12_000,
         }
     }
 
